@@ -86,6 +86,7 @@ type SpecFunc struct {
 	Body     ast.Expr
 	Src      string
 	BVOnly   bool
+	Trig     bool // applied as an uninterpreted function with a triggered definitional axiom
 	Rec      bool // recursive: kept uninterpreted, body given as axiom
 	File     string
 	Line     int
@@ -471,6 +472,7 @@ func (sp *Specs) ParseSpecText(lines []specLine, file, pkgPath string) error {
 			rest := s.rest
 			rec := false
 			bvonly := false
+			trig := false
 			eq := strings.Index(rest, " = ")
 			if eq < 0 {
 				return errf("spec function needs ' = body'")
@@ -481,6 +483,11 @@ func (sp *Specs) ParseSpecText(lines []specLine, file, pkgPath string) error {
 				if strings.HasSuffix(hdr, " rec") {
 					rec = true
 					hdr = strings.TrimSpace(strings.TrimSuffix(hdr, " rec"))
+					continue
+				}
+				if strings.HasSuffix(hdr, " trig") {
+					trig = true
+					hdr = strings.TrimSpace(strings.TrimSuffix(hdr, " trig"))
 					continue
 				}
 				if strings.HasSuffix(hdr, " bv-only") {
@@ -502,7 +509,7 @@ func (sp *Specs) ParseSpecText(lines []specLine, file, pkgPath string) error {
 			if err != nil {
 				return errf("bad spec body %q: %v", body, err)
 			}
-			sf := &SpecFunc{PkgPath: pkgPath, Body: e, Src: body, Rec: rec, BVOnly: bvonly, File: file, Line: s.line}
+			sf := &SpecFunc{PkgPath: pkgPath, Body: e, Src: body, Rec: rec, BVOnly: bvonly, Trig: trig, File: file, Line: s.line}
 			sf.Params, sf.ParamTys = fieldNames(fd.Type.Params, "p")
 			if fd.Type.Results != nil && len(fd.Type.Results.List) > 0 {
 				sf.RetTy = fd.Type.Results.List[0].Type
